@@ -59,6 +59,17 @@ def set_jobs(targets, nq, nt, quick_scale=1.0, special=None, builds_quick=('dbg'
     return jobs
 
 
+def jobs_C20(tier, seed):
+    out = []
+    builds = ('dbg', 'asan') if tier == 'quick' else ('dbg', 'rel', 'asan')
+    for t, n in (('set_list', 3), ('set_hash', 3), ('set_tree', 3), ('set_lock', 3), ('queue', 2), ('stack', 2), ('deque_pq', 2), ('bounded', 2)):
+        for b in builds:
+            sc = (1.0 if b != 'asan' else 0.4) * (1.0 if tier == 'quick' else 8.0)
+            extra = ['--filter', '!+caller_owned_insert'] if t == 'set_tree' else None
+            out += shards(t, b, n if tier == 'quick' else 2 * n, 2, 1200 if tier == 'quick' else 5400, extra=extra, scale=sc)
+    return out
+
+
 SET_SPECIAL = {'set_tree': [('+extract_minmax', 3), ('+caller_owned_insert', 2)]}
 
 
@@ -110,11 +121,15 @@ PROPS = {
     'C14': {'jobs': set_jobs(['set_hash'], 5, 19),
             'mechanisms_required': ['split_list.onNewBucket', 'split_list.onRecursiveInitBucket', 'split_list.onBucketInitContenton', 'feldman.onExpandNodeSuccess', 'feldman.onSlotConverting']},
     'C15': {'jobs': set_jobs(['set_tree'], 5, 16, special=SET_SPECIAL),
-            'mechanisms_required': ['skip_list.onEraseWhileFind', 'skip_list.onExtractMinSuccess', 'skip_list.onExtractMaxSuccess', 'ellen.onHelpInsert', 'ellen.onHelpDelete',
+            'mechanisms_required': ['skip_list.onEraseWhileFind', 'skip_list.onExtractMinSuccess', 'skip_list.onExtractMaxSuccess', 'ellen.onInsertRetry', 'ellen.onEraseRetry', 'ellen.onSearchRetry',
                                     'bronson.onRotateRight', 'bronson.onRotateLeft']},
     'C16': {'jobs': set_jobs(['set_lock'], 4, 17),
             'mechanisms_required': ['cuckoo.onResizeCall', 'cuckoo.onRelocateRound', 'cuckoo.onInsertResize']},
     'C18': {'jobs': set_jobs(['set_list', 'set_hash', 'set_tree', 'set_lock'], 3, 8, quick_scale=0.4, special=SET_SPECIAL, builds_quick=('dbg',), run_special=False)},
+    'C20': {'jobs': lambda tier, seed: jobs_C20(tier, seed),
+            'rule': 'one evaluation = one single-threaded sequence of API calls (1-200 calls, random over the full alphabet of the adapter; 3 keys and 2000 keys for sets/maps; near-empty and near-full states for bounded containers) on one container variant, '
+                    'followed by lookups of every key / a complete drain; every return value (incl. update\'s pair, observed item ids, functor call counts and is-new flags, pop order, extract_min/max order, capacity behaviour) must be exactly what the sequential '
+                    'reference model allows, traversal/size()/empty()/check_consistency() compared after every sequence; non-trivial = >=3 calls incl. a mutation and its observation; distinct = fingerprint of the call/result sequence'},
     'C21': {'jobs': sync_jobs('freelist', ['dbg', 'asan', 'tsan'], ['dbg', 'rel', 'asan', 'tsan'])},
     'C22': {'jobs': sync_jobs('locks', ['dbg', 'asan', 'tsan'], ['dbg', 'rel', 'asan', 'tsan'], nq=3, nt=7)},
     'C24': {'jobs': sync_jobs('pools', ['dbg', 'asan'], ['dbg', 'rel', 'asan'], nq=2, nt=4)},
